@@ -63,7 +63,7 @@ theorem quoteInLiteral_dot (a b : Str) :
   simp [quoteInLiteral, escapeClose_append, escapeClose]
 
 /-- a chain written inside a literal, lexed on its own, matches its `ref` item -/
-theorem match0_chain (r : Str → Bool) (ns : List Name) (sch : Option Str) (names : List Str) (hne : ns ≠ [])
+theorem match0_chain (r : Str → Bool) (ns : List Name) (sch : List Str) (names : List Str) (hne : ns ≠ [])
     (hn : ∀ n ∈ ns, NameOK .mssql n) (hok : refOk sch names (ns.map (·.s)) = true) :
     match0 .mssql r [.ref sch names] (lex .mssql (dottedNames .mssql r ns)) = some [] := by
   have h1 := lex_dotted .mssql r ns [] hne hn (by intro c hc; simp at hc)
